@@ -46,6 +46,62 @@ Fixpoint branches_in_step (st : option bkind) (l : list bstmt) : bool :=
 (* gap predicate F12 (decidable): some statement is executed although the visitor skips it, or the reverse *)
 Definition gap_rebind (l : list bstmt) : bool := negb (branches_in_step None l).
 
+(* ------------------------------------------------------------------------------------------------ *)
+(* where a statement sits, and which branches run: nothing is supplied from outside any more          *)
+
+Inductive cond :=
+| CTypeChecking        (* typing.TYPE_CHECKING / TYPE_CHECKING: False at runtime *)
+| CNotTypeChecking     (* not typing.TYPE_CHECKING *)
+| CFalseTest           (* a test that is false in every supported interpreter: sys.version_info < (3, 0) *)
+| CTrueTest.           (* sys.version_info >= (3, 0) *)
+
+Inductive place :=
+| PTop                 (* directly in the module / class body, or in the body of a `try` that does not raise *)
+| PThen (c : cond)     (* body of `if c:` *)
+| PElse (c : cond)     (* its `else:` *)
+| PExcept.             (* handler of an exception that is not raised *)
+
+Definition eval_cond (c : cond) : bool :=
+  match c with CTypeChecking => false | CNotTypeChecking => true | CFalseTest => false | CTrueTest => true end.
+
+(* CPython executes the statement *)
+Definition place_taken (p : place) : bool :=
+  match p with PTop => true | PThen c => eval_cond c | PElse c => negb (eval_cond c) | PExcept => false end.
+(* handle_attribute's test: node.parent is an ast.If or an ast.ExceptHandler *)
+Definition place_branch (p : place) : bool := match p with PTop => false | _ => true end.
+(* Visitor.visit_if: the statement is visited with type_guarded set (the member gets runtime=False) *)
+Definition place_guarded (p : place) : bool :=
+  match p with PThen CTypeChecking | PElse CNotTypeChecking => true | _ => false end.
+
+Record cstmt := mkC { c_kind : bkind; c_place : place }.
+Definition lower (s : cstmt) : bstmt := mkB (c_kind s) (place_branch (c_place s)) (place_taken (c_place s)).
+
+(* the visitor, with the runtime flag of the member it keeps *)
+Definition visit_step_c (st : option (bkind * bool)) (s : cstmt) : option (bkind * bool) :=
+  let fresh := Some (c_kind s, negb (place_guarded (c_place s))) in
+  match c_kind s with
+  | BAssign => if is_some st && place_branch (c_place s) then st else fresh
+  | _ => fresh
+  end.
+Definition visit_all_c (l : list cstmt) : option (bkind * bool) := fold_left visit_step_c l None.
+
+(* gap predicate F12 over the conditions themselves (decidable) *)
+Definition gap_cond (l : list cstmt) : bool := gap_rebind (map lower l).
+
+Definition dec_cond (s : sexp) : option cond :=
+  match s with
+  | SStr "tc" => Some CTypeChecking | SStr "nottc" => Some CNotTypeChecking
+  | SStr "false" => Some CFalseTest | SStr "true" => Some CTrueTest | _ => None
+  end.
+Definition dec_place (s : sexp) : option place :=
+  match s with
+  | SStr "top" => Some PTop
+  | SStr "except" => Some PExcept
+  | SList [SStr "then"; c] => do c' <- dec_cond c; Some (PThen c')
+  | SList [SStr "else"; c] => do c' <- dec_cond c; Some (PElse c')
+  | _ => None
+  end.
+
 Definition dec_bkind (s : sexp) : option bkind :=
   match s with SStr "import" => Some BImport | SStr "def" => Some BDef | SStr "assign" => Some BAssign | _ => None end.
 Definition dec_bstmt (s : sexp) : option bstmt :=
@@ -56,11 +112,28 @@ Definition dec_bstmt (s : sexp) : option bstmt :=
 Definition enc_bkind (k : bkind) : sexp := SStr (match k with BImport => "import" | BDef => "def" | BAssign => "assign" end).
 
 (* ["rebind", stmts] -> [static binder kind; runtime binder kind; F12] *)
+Definition dec_cstmt (s : sexp) : option cstmt :=
+  match s with
+  | SList [k; p] => do k' <- dec_bkind k; do p' <- dec_place p; Some (mkC k' p')
+  | _ => None
+  end.
+
 Definition run_rebind (s : sexp) : option sexp :=
   match s with
   | SList [SStr "rebind"; l] =>
       match as_list_of dec_bstmt l with
       | Some l' => Some (SList [of_opt enc_bkind (visit_all l'); of_opt enc_bkind (run_all l'); of_bool (gap_rebind l')])
+      | None => Some bad_input
+      end
+  | SList [SStr "rebindc"; l] =>
+      (* [static binder kind; runtime flag of the kept member; runtime binder kind; F12; is each statement executed] *)
+      match as_list_of dec_cstmt l with
+      | Some l' =>
+          Some (SList [of_opt enc_bkind (option_map fst (visit_all_c l'));
+                       of_opt of_bool (option_map snd (visit_all_c l'));
+                       of_opt enc_bkind (run_all (map lower l'));
+                       of_bool (gap_cond l');
+                       SList (map (fun s => of_bool (place_taken (c_place s))) l')])
       | None => Some bad_input
       end
   | _ => None
